@@ -1951,3 +1951,149 @@ Section NestedMM.
     - apply nested_ok_mm_rollup; auto; [right; auto|]. apply Hin; [discriminate|]. destruct Ho; [discriminate|auto].
   Qed.
 End NestedMM.
+
+(* ================= 10. chain decomposition ================= *)
+(* consecutive elements of a chain are covering edges parent -> child *)
+Fixpoint linked (p : poset) (ch : list nat) : Prop :=
+  match ch with
+  | a :: ((b :: _) as r) => In b (children p a) /\ linked p r
+  | _ => True
+  end.
+
+Section Chains.
+  Variables (p : poset) (rk : nat -> nat).
+  Hypothesis W : wf_poset p rk.
+  Hypothesis TO : topo_ok p.
+  Let n := pn p.
+
+  (* a rank bounded by n: the position in topo_up *)
+  Let tr (v : nat) : nat := index_of v (ptopo p).
+
+  Lemma topo_len : length (ptopo p) = n.
+  Proof.
+    destruct TO as [Hnd [Hall _]]. rewrite <- (seq_length n 0).
+    apply Nat.le_antisymm; apply NoDup_incl_length; auto.
+    - intros x Hx. apply in_seq. apply Hall in Hx. fold n in Hx. lia.
+    - apply seq_NoDup.
+    - intros x Hx. apply in_seq in Hx. apply Hall. fold n. lia.
+  Qed.
+
+  Lemma tr_lt : forall v, v < n -> tr v < n.
+  Proof.
+    intros v Hv. unfold tr. rewrite <- topo_len. apply index_of_lt. destruct TO as [_ [Hall _]]. apply Hall. auto.
+  Qed.
+
+  Lemma child_lt : forall v c, In c (children p v) -> c < n /\ v < n /\ tr c < tr v.
+  Proof.
+    intros v c Hc. apply (wf_ch p rk W) in Hc. destruct (wf_lt p rk W c v Hc).
+    destruct TO as [_ [_ Hidx]]. split; auto. split; auto. apply Hidx; auto.
+  Qed.
+
+  Lemma grow_spec : forall fuel v used, tr v < fuel -> v < n -> length used = n -> nth v used false = false ->
+    exists r, fst (grow_chain fuel p v used) = v :: r /\
+      linked p (v :: r) /\ NoDup (v :: r) /\
+      (forall x, In x (v :: r) -> x < n /\ nth x used false = false) /\
+      length (snd (grow_chain fuel p v used)) = n /\
+      forall x, x < n -> nth x (snd (grow_chain fuel p v used)) false = nth x used false || memn x (v :: r).
+  Proof.
+    induction fuel as [|f IH]; intros v used Hf Hv Hl Hu; [lia|]. cbn [grow_chain].
+    set (used1 := upd used v true).
+    assert (Hl1 : length used1 = n) by (unfold used1; rewrite upd_length; auto).
+    assert (H1 : forall x, nth x used1 false = if x =? v then true else nth x used false).
+    { intros x. unfold used1. destruct (Nat.eqb_spec x v) as [->|Hne].
+      - rewrite nth_upd by lia. rewrite Nat.eqb_refl. reflexivity.
+      - rewrite nth_upd_other by auto. reflexivity. }
+    destruct (find (fun c => negb (nth c used1 false)) (children p v)) as [c|] eqn:Ef.
+    - apply find_some in Ef as [Hc Hcu]. apply negb_true_iff in Hcu.
+      destruct (child_lt v c Hc) as [Hcn [_ Hrk]].
+      destruct (IH c used1) as [r [E [Lk [Nd [Hin [Hlen Hnth]]]]]]; auto; try lia.
+      destruct (grow_chain f p c used1) as [ch used'] eqn:G. cbn [fst snd] in *. subst ch.
+      exists (c :: r). split; [reflexivity|]. split; [cbn [linked]; auto|].
+      assert (Hvc : ~ In v (c :: r)).
+      { intros Hin'. apply Hin in Hin' as [_ Hx]. rewrite H1, Nat.eqb_refl in Hx. discriminate. }
+      split; [constructor; auto|]. split; [|split; auto].
+      + intros x [<-|Hx]; [auto|]. destruct (Hin x Hx) as [Hxn Hxu]. split; auto.
+        rewrite H1 in Hxu. destruct (x =? v); [discriminate|auto].
+      + intros x Hx. rewrite Hnth by auto. rewrite H1.
+        unfold memn at 2. cbn [existsb]. fold (memn x (c :: r)).
+        destruct (Nat.eqb_spec x v); cbn; [rewrite orb_true_r; reflexivity|reflexivity].
+    - exists []. cbn [fst snd]. split; [reflexivity|]. split; [cbn; auto|].
+      split; [constructor; [intros []|constructor]|]. split; [|split; auto].
+      + intros x [<-|[]]. auto.
+      + intros x Hx. rewrite H1. unfold memn. cbn [existsb]. destruct (x =? v); [rewrite orb_true_r|rewrite orb_false_r]; reflexivity.
+  Qed.
+
+  Definition dstep (st : list (list nat) * list bool) (u : nat) : list (list nat) * list bool :=
+    let '(chains, used) := st in
+    if nth u used false then st
+    else let '(c, used') := grow_chain (S (pn p)) p u used in (chains ++ [c], used').
+
+  Record dinv (chains : list (list nat)) (used : list bool) : Prop := {
+    d_len : length used = n;
+    d_used : forall v, v < n -> nth v used false = memn v (concat chains);
+    d_nd : NoDup (concat chains);
+    d_lt : forall v, In v (concat chains) -> v < n;
+    d_link : forall ch, In ch chains -> linked p ch /\ ch <> [] }.
+
+  Lemma dstep_inv : forall chains used u, u < n -> dinv chains used ->
+    dinv (fst (dstep (chains, used) u)) (snd (dstep (chains, used) u)) /\
+    In u (concat (fst (dstep (chains, used) u))) /\
+    (forall x, In x (concat chains) -> In x (concat (fst (dstep (chains, used) u)))).
+  Proof.
+    intros chains used u Hu [Dl Du Dn Dt Dk]. unfold dstep.
+    destruct (nth u used false) eqn:E.
+    - cbn [fst snd]. split; [constructor; auto|]. split; auto.
+      apply memn_In. rewrite <- Du; auto.
+    - destruct (grow_spec (S (pn p)) u used) as [r [G1 [G2 [G3 [G4 [G5 G6]]]]]]; auto.
+      { pose proof (tr_lt u Hu). fold n. lia. }
+      destruct (grow_chain (S (pn p)) p u used) as [c used'] eqn:G. cbn [fst snd] in *. subst c.
+      assert (Ec : concat (chains ++ [u :: r]) = concat chains ++ u :: r).
+      { rewrite concat_app. cbn [concat]. rewrite app_nil_r. reflexivity. }
+      split; [constructor|].
+      + auto.
+      + intros v Hv. rewrite Ec, G6 by auto. rewrite Du by auto.
+        unfold memn. rewrite existsb_app. reflexivity.
+      + rewrite Ec. apply NoDup_app_intro; auto. intros x Hx Hx2. apply G4 in Hx2 as [Hxn Hxu].
+        rewrite Du in Hxu by auto. apply memn_In in Hx. congruence.
+      + intros v Hv. rewrite Ec in Hv. apply in_app_or in Hv as [Hv|Hv]; auto. apply G4; auto.
+      + intros ch Hch. apply in_app_or in Hch as [Hch|[<-|[]]]; auto. split; auto. discriminate.
+      + rewrite Ec. split; [apply in_or_app; right; cbn; auto|]. intros x Hx. apply in_or_app; auto.
+  Qed.
+
+  Lemma dfold_inv : forall l chains used, (forall u, In u l -> u < n) -> dinv chains used ->
+    dinv (fst (fold_left dstep l (chains, used))) (snd (fold_left dstep l (chains, used))) /\
+    (forall u, In u l -> In u (concat (fst (fold_left dstep l (chains, used))))) /\
+    (forall x, In x (concat chains) -> In x (concat (fst (fold_left dstep l (chains, used))))).
+  Proof.
+    induction l as [|u l IH]; intros chains used Hl D; cbn [fold_left].
+    - split; auto. split; auto. intros u [].
+    - destruct (dstep_inv chains used u) as [D1 [D2 D3]]; auto; [apply Hl; cbn; auto|].
+      destruct (dstep (chains, used) u) as [chains1 used1] eqn:E. cbn [fst snd] in *.
+      destruct (IH chains1 used1) as [I1 [I2 I3]]; auto; [intros x Hx; apply Hl; cbn; auto|].
+      split; auto. split.
+      + intros x [<-|Hx]; auto.
+      + intros x Hx. auto.
+  Qed.
+
+  Lemma decompose_eq : decompose_chains p = fst (fold_left dstep (topo_down p) ([], repeat false (pn p))).
+  Proof. reflexivity. Qed.
+
+  Theorem chains_partition :
+    NoDup (concat (decompose_chains p)) /\
+    (forall v, In v (concat (decompose_chains p)) <-> v < n) /\
+    (forall ch, In ch (decompose_chains p) -> linked p ch /\ ch <> []).
+  Proof.
+    rewrite decompose_eq.
+    destruct TO as [Hnd [Hall _]].
+    destruct (dfold_inv (topo_down p) [] (repeat false (pn p))) as [[Dl Du Dn Dt Dk] [I2 _]].
+    - intros u Hu. unfold topo_down in Hu. apply in_rev in Hu. apply Hall in Hu. auto.
+    - constructor; cbn [concat]; auto.
+      + apply repeat_length.
+      + intros v Hv. rewrite nth_repeat. reflexivity.
+      + constructor.
+      + intros v [].
+      + intros ch [].
+    - split; auto. split; auto. intros v; split; auto.
+      intros Hv. apply I2. unfold topo_down. apply -> in_rev. apply Hall. auto.
+  Qed.
+End Chains.
